@@ -169,3 +169,204 @@ theorem getFrame_refines (norm : Str → Str) (s : Store) (hd : CH) (n : Name) (
     | some f => exact ⟨rfl, rfl⟩
 
 end CifModel.Store
+
+namespace CifModel.Store
+open Gen.ErrCodes
+
+-- ---- loop level: create_loop ---------------------------------------------------------------------------------------------------
+
+/-- loop numbers of a container stay below its `next_loop_num` (the trigger tr1_unnumbered_loop hands them out in sequence) -/
+def LoopNumsBelow (d : Db) (cid : Nat) : Prop :=
+  ∀ c ∈ d.containers, c.id = cid → ∀ l ∈ d.loops, l.cid = cid → l.loopNum < c.nextLoopNum
+
+/-- the loops of one container as the data model sees them -/
+def absLoops (d : Db) (cid : Nat) : List Loop := (d.loops.filter (fun l => l.cid == cid)).map (absLoop d)
+
+theorem addItems_spec : ∀ (ns : List Name) (d d' : Db) (cid ln : Nat), addItems d cid ln ns = .ok d' →
+    d'.items = d.items ++ ns.map (fun n => { cid := cid, name := n.key, nameOrig := n.orig, loopNum := ln }) ∧
+    d'.loops = d.loops ∧ d'.values = d.values ∧ d'.frames = d.frames ∧ d'.blocks = d.blocks ∧ d'.containers = d.containers ∧
+    (∀ n ∈ ns, d.hasItem cid n.key = false)
+  | [], d, d', _, _, he => by
+    simp [addItems] at he; subst he
+    exact ⟨by simp, rfl, rfl, rfl, rfl, rfl, fun _ h => nomatch h⟩
+  | n :: ns, d, d', cid, ln, he => by
+    unfold addItems at he
+    split at he
+    · cases he
+    · rename_i d1 hi
+      have hd1 : d1 = { d with items := d.items ++ [{ cid := cid, name := n.key, nameOrig := n.orig, loopNum := ln }] } ∧ d.hasItem cid n.key = false := by
+        unfold Db.insertItem at hi
+        split at hi; · cases hi
+        rename_i hfresh
+        split at hi; · cases hi
+        cases hi
+        exact ⟨rfl, by simpa using hfresh⟩
+      obtain ⟨i1, l1, v1, f1, b1, c1, hf1⟩ := addItems_spec ns d1 d' cid ln he
+      rw [hd1.1] at i1 l1 v1 f1 b1 c1
+      refine ⟨by rw [i1]; simp, l1, v1, f1, b1, c1, ?_⟩
+      intro m hm
+      rcases List.mem_cons.mp hm with rfl | hm'
+      · exact hd1.2
+      · have := hf1 m hm'
+        rw [hd1.1] at this
+        cases hx : d.hasItem cid m.key with
+        | false => rfl
+        | true =>
+          have : ({ d with items := d.items ++ [{ cid := cid, name := n.key, nameOrig := n.orig, loopNum := ln }] } : Db).hasItem cid m.key = true := by
+            obtain ⟨i, hi', h1, h2⟩ := (hasItem_iff d _ _).mp hx
+            exact (hasItem_iff _ _ _).mpr ⟨i, List.mem_append_left _ hi', h1, h2⟩
+          simp_all
+
+theorem foldl_max_le (ls : List LoopRow) (m b : Nat) (hm : m ≤ b) (h : ∀ l ∈ ls, l.loopNum ≤ b) :
+    ls.foldl (fun m l => max m l.loopNum) m ≤ b := by
+  induction ls generalizing m with
+  | nil => exact hm
+  | cons x xs ih =>
+    simp only [List.foldl_cons]
+    exact ih _ (Nat.max_le.mpr ⟨hm, h x List.mem_cons_self⟩) (fun l hl => h l (List.mem_cons_of_mem _ hl))
+
+theorem foldl_max_ge (ls : List LoopRow) (m : Nat) : m ≤ ls.foldl (fun m l => max m l.loopNum) m := by
+  induction ls generalizing m with
+  | nil => exact Nat.le_refl _
+  | cons x xs ih => simp only [List.foldl_cons]; exact Nat.le_trans (Nat.le_max_left _ _) (ih _)
+
+theorem foldl_max_mem (ls : List LoopRow) (m : Nat) (x : LoopRow) (hx : x ∈ ls) : x.loopNum ≤ ls.foldl (fun m l => max m l.loopNum) m := by
+  induction ls generalizing m with
+  | nil => cases hx
+  | cons y ys ih =>
+    simp only [List.foldl_cons]
+    rcases List.mem_cons.mp hx with rfl | hx'
+    · exact Nat.le_trans (Nat.le_max_right _ _) (foldl_max_ge ys _)
+    · exact ih _ hx'
+
+end CifModel.Store
+
+namespace CifModel.Store
+open Gen.ErrCodes
+
+theorem insertLoop_spec (d d1 : Db) (cid : Nat) (cat : Option Str) (he : d.insertLoopUnnumbered cid cat = .ok d1) :
+    ∃ c, c ∈ d.containers ∧ c.id = cid ∧ d.hasLoop cid c.nextLoopNum = false ∧
+      d1.loops = d.loops ++ [{ cid := cid, loopNum := c.nextLoopNum, category := cat, lastRowNum := 0 }] ∧
+      d1.items = d.items ∧ d1.values = d.values ∧ d1.frames = d.frames ∧ d1.blocks = d.blocks := by
+  unfold Db.insertLoopUnnumbered at he
+  split at he; · cases he
+  split at he; · cases he
+  rename_i c hc
+  split at he; · cases he
+  rename_i hfresh
+  cases he
+  have hmem := List.mem_of_find?_eq_some hc
+  have hkey := List.find?_some hc
+  exact ⟨c, hmem, by simpa using hkey, by simpa using hfresh, rfl, rfl, rfl, rfl, rfl⟩
+
+/-- create_loop, container-local refinement: on success the container gains exactly one loop — the given category, the given
+    names in the given spelling and order, no packet — appended to its loops; every other loop of the CIF (of this and of every
+    other container) is, as the data model sees it, what it was; blocks and frames are untouched.
+    (Failure leaves the whole store unchanged: `C05_atomic`.) -/
+theorem createLoop_refines (d d' : Db) (cid : Nat) (cat : Option Str) (names : List Name) (l : LH) (h : Inv d)
+    (hb : LoopNumsBelow d cid) (he : createLoopBody cid cat names d = .ok (d', l)) :
+    absLoops d' cid = absLoops d cid ++ [{ category := cat, names := names.map (·.orig), packets := [] }] ∧
+    (∀ cid', cid' ≠ cid → absLoops d' cid' = absLoops d cid') ∧
+    d'.frames = d.frames ∧ d'.blocks = d.blocks ∧ l.cid = cid ∧ l.category = cat := by
+  unfold createLoopBody at he
+  split at he
+  · split at he <;> cases he
+  · rename_i d1 hins
+    simp only [] at he
+    split at he
+    · cases he
+    · rename_i d2 hadd
+      simp only [Except.ok.injEq, Prod.mk.injEq] at he
+      obtain ⟨hd, hl⟩ := he
+      subst hd
+      obtain ⟨c, hcm, hcid, hfresh, l1, i1, v1, f1, b1⟩ := insertLoop_spec d d1 cid cat hins
+      -- the loop number handed to the items is the new loop's
+      have hln : d1.maxLoopNum cid = c.nextLoopNum := by
+        unfold Db.maxLoopNum
+        rw [l1, List.filter_append]
+        have : [({ cid := cid, loopNum := c.nextLoopNum, category := cat, lastRowNum := 0 } : LoopRow)].filter (fun l => l.cid == cid) =
+            [{ cid := cid, loopNum := c.nextLoopNum, category := cat, lastRowNum := 0 }] := by simp
+        rw [this]
+        apply Nat.le_antisymm
+        · apply foldl_max_le _ _ _ (Nat.zero_le _)
+          intro x hx
+          rcases List.mem_append.mp hx with hx | hx
+          · obtain ⟨hxm, hxc⟩ := List.mem_filter.mp hx
+            exact Nat.le_of_lt (hb c hcm hcid x hxm (by simpa using hxc))
+          · simp at hx; subst hx; exact Nat.le_refl _
+        · exact foldl_max_mem _ 0 { cid := cid, loopNum := c.nextLoopNum, category := cat, lastRowNum := 0 } (List.mem_append_right _ (List.mem_singleton.mpr rfl))
+      rw [hln] at hadd hl
+      obtain ⟨i2, l2, v2, f2, b2, _, hnew⟩ := addItems_spec names d1 d2 cid c.nextLoopNum hadd
+      rw [i1] at i2; rw [l1] at l2; rw [v1] at v2
+      -- old loops look the same
+      have hA : ∀ r ∈ d.loops, absLoop d2 r = absLoop d r := by
+        intro r hr
+        have hitems : d2.loopItems r.cid r.loopNum = d.loopItems r.cid r.loopNum := by
+          unfold Db.loopItems
+          rw [i2, List.filter_append]
+          have : (names.map (fun n => ({ cid := cid, name := n.key, nameOrig := n.orig, loopNum := c.nextLoopNum } : ItemRow))).filter
+              (fun i => i.cid == r.cid && i.loopNum == r.loopNum) = [] := by
+            rw [List.filter_eq_nil_iff]
+            intro i hi hk
+            obtain ⟨n, _, rfl⟩ := List.mem_map.mp hi
+            simp at hk
+            have : d.hasLoop cid c.nextLoopNum = true := (hasLoop_iff d _ _).mpr ⟨r, hr, hk.1.symm, hk.2.symm⟩
+            rw [hfresh] at this; cases this
+          rw [this, List.append_nil]
+        simp only [absLoop, Db.loopRows, hitems, v2]
+      -- the new loop
+      have hB : absLoop d2 { cid := cid, loopNum := c.nextLoopNum, category := cat, lastRowNum := 0 } =
+          { category := cat, names := names.map (·.orig), packets := [] } := by
+        have hitems : d2.loopItems cid c.nextLoopNum =
+            names.map (fun n => ({ cid := cid, name := n.key, nameOrig := n.orig, loopNum := c.nextLoopNum } : ItemRow)) := by
+          unfold Db.loopItems
+          rw [i2, List.filter_append]
+          have h1 : d.items.filter (fun i => i.cid == cid && i.loopNum == c.nextLoopNum) = [] := by
+            rw [List.filter_eq_nil_iff]
+            intro i hi hk
+            simp at hk
+            have := h.itemFK i hi
+            rw [hk.1, hk.2, hfresh] at this; cases this
+          have h2 : (names.map (fun n => ({ cid := cid, name := n.key, nameOrig := n.orig, loopNum := c.nextLoopNum } : ItemRow))).filter
+              (fun i => i.cid == cid && i.loopNum == c.nextLoopNum) = names.map (fun n => { cid := cid, name := n.key, nameOrig := n.orig, loopNum := c.nextLoopNum }) := by
+            rw [List.filter_eq_self]
+            intro i hi
+            obtain ⟨n, _, rfl⟩ := List.mem_map.mp hi
+            simp
+          rw [h1, h2, List.nil_append]
+        have hrows : d2.loopRows cid c.nextLoopNum = [] := by
+          unfold Db.loopRows
+          rw [hitems, v2]
+          have : d.values.filter (fun v => v.cid == cid && (names.map (fun n => ({ cid := cid, name := n.key, nameOrig := n.orig, loopNum := c.nextLoopNum } : ItemRow))).any (fun i => i.name == v.name)) = [] := by
+            rw [List.filter_eq_nil_iff]
+            intro v hv hk
+            simp only [Bool.and_eq_true, List.any_eq_true] at hk
+            obtain ⟨hvc, i, hi, hin⟩ := hk
+            obtain ⟨n, hn, rfl⟩ := List.mem_map.mp hi
+            have hfk := h.valueFK v hv
+            have hno := hnew n hn
+            have hvc' : v.cid = cid := by simpa using hvc
+            have hin' : n.key = v.name := by simpa using hin
+            have : d1.hasItem cid n.key = d.hasItem v.cid v.name := by
+              simp only [Db.hasItem, i1, hvc', hin']
+            rw [this, hfk] at hno; cases hno
+          rw [this]; rfl
+        simp only [absLoop, hitems, hrows, List.map_map, List.map_nil]
+        rfl
+      refine ⟨?_, ?_, by rw [f2, f1], by rw [b2, b1], by rw [← hl], by rw [← hl]⟩
+      · unfold absLoops
+        rw [l2, List.filter_append, List.map_append]
+        have : [({ cid := cid, loopNum := c.nextLoopNum, category := cat, lastRowNum := 0 } : LoopRow)].filter (fun l => l.cid == cid) =
+            [{ cid := cid, loopNum := c.nextLoopNum, category := cat, lastRowNum := 0 }] := by simp
+        rw [this, List.map_singleton, hB]
+        congr 1
+        exact List.map_congr_left (fun r hr => hA r (List.mem_filter.mp hr).1)
+      · intro cid' hne
+        unfold absLoops
+        rw [l2, List.filter_append]
+        have : [({ cid := cid, loopNum := c.nextLoopNum, category := cat, lastRowNum := 0 } : LoopRow)].filter (fun l => l.cid == cid') = [] := by
+          simp; exact fun h => hne h.symm
+        rw [this, List.append_nil]
+        exact List.map_congr_left (fun r hr => hA r (List.mem_filter.mp hr).1)
+
+end CifModel.Store
